@@ -1,9 +1,12 @@
 package main
 
 import (
+	"fmt"
 	"go/ast"
 	"go/token"
 	"go/types"
+
+	"golang.org/x/tools/go/cfg"
 )
 
 func init() {
@@ -376,5 +379,319 @@ func ruleResetComplete(c *Ctx) {
 	}
 	for f := range b {
 		c.check(a[f], "reset-clears/"+f, rs.Decl.Pos(), "cleared by reset as by FLUSHDB", "Server.reset leaves Server."+f+" untouched although FLUSHDB clears it: a follower that resyncs keeps stale entries of it")
+	}
+}
+
+func init() {
+	register(&Rule{ID: "R6.stream-registered", Props: []string{"C06", "C09"}, Floor: 5,
+		Text: "a handle on the live log that is read outside the critical section that opened it (the leader's stream to a follower) is registered in Server.aofconnM in the same exclusive critical section as the open, before any byte is read from it, and AOFSHRINK closes every registered connection and file before it renames the new log into place — so no follower keeps streaming a replaced log; other opens of the live log use the handle only for Seek/Stat/Close inside the command",
+		Run:  ruleStreamRegistered})
+}
+
+func ruleStreamRegistered(c *Ctx) {
+	a := c.muLK()
+	if a.err != "" {
+		c.und("engine", 0, "%s", a.err)
+		return
+	}
+	aofF := c.Field("internal/server", "Server", "aof")
+	connM := c.Field("internal/server", "Server", "aofconnM")
+	if aofF == nil || connM == nil {
+		c.und("anchors", 0, "Server.aof / Server.aofconnM not found")
+		return
+	}
+	spec := c.muSpec(false)
+	nOpen, nReg := 0, 0
+	for _, fn := range c.AllFuncs("internal/server") {
+		info := fn.Info()
+		u := a.lk.ofDecl[fn.Obj]
+		// opens of the live log: os.Open*(s.aof.Name(), ...) assigned to a local
+		type open struct {
+			as   *ast.AssignStmt
+			f    types.Object
+			errV types.Object
+		}
+		var opens []open
+		inspectNoLit(fn.Decl.Body, func(n ast.Node) bool {
+			as, ok := n.(*ast.AssignStmt)
+			if !ok || len(as.Rhs) != 1 || len(as.Lhs) != 2 {
+				return true
+			}
+			call, ok := ast.Unparen(as.Rhs[0]).(*ast.CallExpr)
+			if !ok || len(call.Args) == 0 {
+				return true
+			}
+			f := callee(info, call)
+			if f == nil || f.Pkg() == nil || f.Pkg().Path() != "os" || (f.Name() != "Open" && f.Name() != "OpenFile") {
+				return true
+			}
+			nc, ok := ast.Unparen(call.Args[0]).(*ast.CallExpr)
+			if !ok {
+				return true
+			}
+			se, ok := ast.Unparen(nc.Fun).(*ast.SelectorExpr)
+			if !ok || se.Sel.Name != "Name" || selField(info, se.X) != aofF {
+				return true
+			}
+			o := open{as: as}
+			if id, ok := as.Lhs[0].(*ast.Ident); ok {
+				o.f = info.ObjectOf(id)
+			}
+			if id, ok := as.Lhs[1].(*ast.Ident); ok {
+				o.errV = info.ObjectOf(id)
+			}
+			opens = append(opens, o)
+			return true
+		})
+		if len(opens) == 0 {
+			continue
+		}
+		fg := newFlowGraph(info, fn.Decl.Body)
+		for _, o := range opens {
+			nOpen++
+			base := funcName(fn.Obj) + "→open-live-log"
+			if o.f == nil {
+				c.und(base, o.as.Pos(), "handle is not bound to a local variable")
+				continue
+			}
+			ol := fg.LocOf(o.as)
+			// registration: s.aofconnM[_] = f
+			var reg *ast.AssignStmt
+			ast.Inspect(fn.Decl.Body, func(n ast.Node) bool {
+				as, ok := n.(*ast.AssignStmt)
+				if !ok || len(as.Lhs) != 1 || len(as.Rhs) != 1 {
+					return true
+				}
+				ix, ok := ast.Unparen(as.Lhs[0]).(*ast.IndexExpr)
+				if !ok || selField(info, ix.X) != connM {
+					return true
+				}
+				if id, ok := ast.Unparen(as.Rhs[0]).(*ast.Ident); ok && info.ObjectOf(id) == o.f {
+					reg = as
+				}
+				return true
+			})
+			// uses of the handle
+			type use struct {
+				node   ast.Node
+				method string // "" when passed as an argument
+				inLit  bool
+			}
+			var uses []use
+			var walk func(n ast.Node, inLit bool)
+			walk = func(n ast.Node, inLit bool) {
+				ast.Inspect(n, func(m ast.Node) bool {
+					if lit, ok := m.(*ast.FuncLit); ok && m != n {
+						// a literal invoked on the spot (or deferred) runs inside this function
+						escapes := true
+						if call, ok := c.Parent(lit).(*ast.CallExpr); ok && ast.Unparen(call.Fun) == lit {
+							if _, isGo := c.Parent(call).(*ast.GoStmt); !isGo {
+								escapes = false
+							}
+						}
+						walk(lit.Body, inLit || escapes)
+						return false
+					}
+					call, ok := m.(*ast.CallExpr)
+					if !ok {
+						return true
+					}
+					if se, ok := ast.Unparen(call.Fun).(*ast.SelectorExpr); ok {
+						if id, ok := ast.Unparen(se.X).(*ast.Ident); ok && info.ObjectOf(id) == o.f {
+							uses = append(uses, use{call, se.Sel.Name, inLit})
+						}
+					}
+					for _, arg := range call.Args {
+						if id, ok := ast.Unparen(arg).(*ast.Ident); ok && info.ObjectOf(id) == o.f {
+							uses = append(uses, use{call, "", inLit})
+						}
+					}
+					return true
+				})
+			}
+			walk(fn.Decl.Body, false)
+			passive := map[string]bool{"Close": true, "Stat": true, "Name": true}
+			if reg == nil {
+				// command-local handle: the function is only entered with Server.mu held (the swap needs it
+				// exclusively), performs no lock operation itself, and the handle does not leave it (no use
+				// inside a literal other than a Close)
+				mask, _ := 0, false
+				if u != nil {
+					mask, _ = a.lk.entryLockStates(u)
+				}
+				okLocal := u != nil && mask != 0 && mask&LN == 0
+				why := "the function can be entered without Server.mu"
+				var at token.Pos = o.as.Pos()
+				inspectNoLit(fn.Decl.Body, func(m ast.Node) bool {
+					if call, ok := m.(*ast.CallExpr); ok && u != nil && spec.Op(u, call) != 0 {
+						okLocal, why, at = false, "the function releases or acquires Server.mu itself", call.Pos()
+					}
+					return true
+				})
+				for _, us := range uses {
+					if us.inLit && us.method != "Close" {
+						okLocal, why, at = false, "the handle is used inside a function literal", us.node.Pos()
+					}
+				}
+				if okLocal {
+					c.ok(base+"/local", o.as.Pos(), true, "unregistered handle lives inside a command that holds Server.mu throughout (%d uses)", len(uses))
+				} else {
+					c.bad(base+"/local", at, "a handle on the live log is not registered in Server.aofconnM and is not confined to a critical section of Server.mu (%s): AOFSHRINK cannot close it when it replaces the log, the reader keeps reading the replaced file", why)
+				}
+				continue
+			}
+			nReg++
+			rl := fg.LocOf(reg)
+			if !ol.Valid() || !rl.Valid() {
+				c.und(base+"/same-section", o.as.Pos(), "open or registration not located in the flow graph")
+				continue
+			}
+			// (i) no lock operation between open and registration (paths on which the open failed are exempt)
+			isLockOp := func(l Loc) bool {
+				hit := false
+				inspectNoLit(l.Node, func(m ast.Node) bool {
+					if call, ok := m.(*ast.CallExpr); ok && u != nil && spec.Op(u, call) != 0 {
+						hit = true
+					}
+					return true
+				})
+				return hit
+			}
+			errNilOnly := func(b *cfg.Block, si int) bool {
+				for _, f := range fg.edgeFacts(b, si) {
+					if be, ok := ast.Unparen(f.E).(*ast.BinaryExpr); ok && (be.Op == token.NEQ || be.Op == token.EQL) {
+						if id, ok := ast.Unparen(be.X).(*ast.Ident); ok && o.errV != nil && info.ObjectOf(id) == o.errV {
+							if tv, ok := info.Types[be.Y]; ok && tv.IsNil() {
+								if be.Op == token.NEQ && !f.Neg || be.Op == token.EQL && f.Neg {
+									return false
+								}
+							}
+						}
+					}
+				}
+				return true
+			}
+			gap, trail := fg.Reach(PathQuery{From: ol, Target: isLockOp,
+				Avoid:  func(l Loc) bool { return l.Block == rl.Block && l.Idx == rl.Idx },
+				EdgeOK: errNilOnly})
+			if gap {
+				var path []string
+				for _, nd := range trail {
+					path = append(path, c.posStr(nd.Pos()))
+				}
+				c.badPath(base+"/same-section", o.as.Pos(), path, "Server.mu is released or re-acquired between opening the live log and registering the handle in aofconnM: an AOFSHRINK swap in that window misses this follower, which then streams the replaced file")
+			} else {
+				c.ok(base+"/same-section", o.as.Pos(), true, "no lock operation on any path from the open to the registration")
+			}
+			// (ii) the registration executes exclusively
+			states := -1
+			for _, as := range a.lk.Accesses() {
+				if as.Acc.Loc == "Server.aofconnM" && as.Acc.Write && as.Acc.Pos >= reg.Pos() && as.Acc.Pos <= reg.End() {
+					states = as.States
+				}
+			}
+			c.check(states == LX, base+"/registered-exclusively", reg.Pos(), "the registration executes with Server.mu held exclusively", fmt.Sprintf("the registration may execute in lock state mask %d (exclusive is %d)", states, LX))
+			// (iii) no read of the handle is reachable from the open without passing the registration
+			okDom := true
+			var at token.Pos
+			nStream := 0
+			for _, us := range uses {
+				if passive[us.method] {
+					continue
+				}
+				nStream++
+				ul := fg.LocOf(us.node)
+				if us.inLit || !ul.Valid() {
+					ul = fg.LocOfOuter(us.node) // the literal's creation point
+				}
+				if !ul.Valid() {
+					okDom, at = false, us.node.Pos()
+					continue
+				}
+				tl := ul
+				early, _ := fg.Reach(PathQuery{From: ol,
+					Target: func(l Loc) bool { return l.Block == tl.Block && l.Idx == tl.Idx },
+					Avoid:  func(l Loc) bool { return l.Block == rl.Block && l.Idx == rl.Idx },
+					EdgeOK: errNilOnly})
+				if early {
+					okDom, at = false, us.node.Pos()
+				}
+			}
+			if nStream == 0 {
+				c.und(base+"/registered-before-read", reg.Pos(), "no read of the registered handle found")
+			} else if okDom {
+				c.ok(base+"/registered-before-read", reg.Pos(), true, "the registration dominates all %d reads of the handle", nStream)
+			} else {
+				c.bad(base+"/registered-before-read", at, "the handle is read (streamed to the follower) on a path that has not registered it in aofconnM yet: an AOFSHRINK that completes meanwhile does not close it, the follower is registered afterwards with a handle on the replaced log and never receives later writes")
+			}
+		}
+	}
+	c.stat("live_log_opens", nOpen)
+	if nReg == 0 {
+		c.bad("registered-stream-exists", 0, "no function registers a streamed handle on the live log in Server.aofconnM")
+	}
+	// AOFSHRINK kicks every registered follower before the rename
+	sh := c.Func("internal/server", "Server", "aofshrink")
+	if sh == nil {
+		c.und("shrink-kicks-followers", 0, "aofshrink not found")
+		return
+	}
+	info := sh.Info()
+	found := false
+	ast.Inspect(sh.Decl.Body, func(n ast.Node) bool {
+		lit, ok := n.(*ast.FuncLit)
+		if !ok {
+			return true
+		}
+		lfg := newFlowGraph(info, lit.Body)
+		renames := lfg.FindCalls(func(f *types.Func, call *ast.CallExpr) bool {
+			return f != nil && f.Pkg() != nil && f.Pkg().Path() == "os" && f.Name() == "Rename"
+		})
+		if len(renames) == 0 {
+			return true
+		}
+		found = true
+		// the kick loop
+		var kick *ast.RangeStmt
+		inspectNoLit(lit.Body, func(m ast.Node) bool {
+			rs, ok := m.(*ast.RangeStmt)
+			if !ok || selField(info, rs.X) != connM {
+				return true
+			}
+			k, _ := rs.Key.(*ast.Ident)
+			v, _ := rs.Value.(*ast.Ident)
+			closed := map[types.Object]bool{}
+			ast.Inspect(rs.Body, func(x ast.Node) bool {
+				if call, ok := x.(*ast.CallExpr); ok {
+					if se, ok := ast.Unparen(call.Fun).(*ast.SelectorExpr); ok && se.Sel.Name == "Close" {
+						if id, ok := ast.Unparen(se.X).(*ast.Ident); ok {
+							closed[info.ObjectOf(id)] = true
+						}
+					}
+				}
+				return true
+			})
+			if k != nil && v != nil && closed[info.ObjectOf(k)] && closed[info.ObjectOf(v)] {
+				kick = rs
+			}
+			return true
+		})
+		if kick == nil {
+			c.bad("shrink-kicks-followers", renames[0].Node.Pos(), "the swap section of aofshrink renames the new log into place without closing every connection and file registered in aofconnM: followers keep streaming the replaced log")
+			return true
+		}
+		// the range statement's header block dominates the rename
+		kl := lfg.LocOfRange(kick)
+		okk := kl.Valid()
+		for _, r := range renames {
+			if !kl.Valid() || !lfg.Dominates(kl, r) {
+				okk = false
+			}
+		}
+		c.check(okk, "shrink-kicks-followers", kick.Pos(), "closing every registered follower connection and file dominates the rename", "the rename of the new log can be reached without the loop that closes the registered followers")
+		return true
+	})
+	if !found {
+		c.und("shrink-kicks-followers", sh.Decl.Pos(), "no function literal with an os.Rename in aofshrink")
 	}
 }
